@@ -163,7 +163,9 @@ class Analysis:
         self._immut = None
         self._same_len = None
         self._ksub = None
+        self._csub = None
         self._deps = None
+        self.thresholds = self._thresholds()
         self._prescan()
         self.entry = {}
         self._run()
@@ -1458,11 +1460,14 @@ class Analysis:
                 and a0_local is not None:
             self._same_len = None
             self._ksub = None
+            self._csub = None
             ref_len, restore = self.index_call(st, name, a0_local, args[1])
             if self._same_len is not None and self._same_len != d:
                 syms[(("len",),)] = ("same", 0, self._same_len)
             elif self._ksub is not None and key_root(self._ksub[0]) != d and key_root(self._ksub[1]) != d:
                 syms[(("len",),)] = ("ksub", self._ksub[0], self._ksub[1])
+            elif self._csub is not None and key_root(self._csub[1]) != d:
+                syms[(("len",),)] = ("sub", self._csub[0], self._csub[1])
         else:
             sm = self.summaries.get(name)
             if sm is not None:
@@ -1740,6 +1745,10 @@ class Analysis:
                 sk_ = self.operand_key(st, s_op)
                 if sk_ is not None and not is_c(sk_) and key_root(sk_) not in self.escaped:
                     self._ksub = (lk, sk_)    # the sub-slice is exactly len(recv) - start long
+            elif kind == "from" and lk is not None and lk[0] == "const" and s_iv[0] >= 0 and s_iv[1] <= lk[1]:
+                sk_ = self.operand_key(st, s_op)
+                if sk_ is not None and not is_c(sk_) and key_root(sk_) not in self.escaped:
+                    self._csub = (lk[1], sk_)  # ... of an array: exactly C - start long
         restore = None
         sh = st.shadow.get(recv)
         if sh is not None and "IndexMut" in name:
@@ -1752,6 +1761,29 @@ class Analysis:
         return ref_len, restore
 
     # ------------------------------------------------------------------ re-evaluation after a refinement
+    def _thresholds(self):
+        """Constants (and their neighbours) that the body compares values with, under this configuration."""
+        ts = set()
+        v = self.v
+        for bi in v.reachable:
+            blk = v.blocks[bi]
+            for s_ in blk["stmts"]:
+                if s_["s"] == "assign" and s_["rv"]["r"] == "bin" and s_["rv"]["op"] in CMP:
+                    for o in (s_["rv"]["a"], s_["rv"]["b"]):
+                        c = v.const_of_operand(o)
+                        if isinstance(c, int) and not isinstance(c, bool) and abs(c) < (1 << 70):
+                            ts.update((c - 1, c, c + 1))
+            t = blk["term"]
+            if t["t"] == "switch":
+                for val, _b in t["targets"]:
+                    if isinstance(val, int) and abs(val) < (1 << 70):
+                        ts.update((val - 1, val, val + 1))
+            elif t["t"] == "assert" and t.get("kind") == "BoundsCheck":
+                c = v.const_of_operand(t["len"])
+                if isinstance(c, int):
+                    ts.update((c - 1, c))
+        return sorted(ts)
+
     def _stable_local(self, l):
         """A local whose value, once defined, never changes: single definition (or a parameter never assigned),
         never mutably borrowed."""
@@ -2243,7 +2275,15 @@ class Analysis:
                         rng = None
                     if rng is None:
                         continue
-                    j = (x[0] if y[0] >= x[0] else rng[0], x[1] if y[1] <= x[1] else rng[1])
+                    # widening with thresholds: an unstable bound jumps to the nearest constant the body compares
+                    # something with (`loop { if i == LIMBS { break } .. i += 1 }` stabilises at i <= LIMBS, and the
+                    # `!=` edge then gives i < LIMBS), and only beyond the last one to the end of the type's range
+                    lo_, hi_ = x[0], x[1]
+                    if y[0] < x[0]:
+                        lo_ = max([t_ for t_ in self.thresholds if rng[0] <= t_ <= y[0]], default=rng[0])
+                    if y[1] > x[1]:
+                        hi_ = min([t_ for t_ in self.thresholds if y[1] <= t_ <= rng[1]], default=rng[1])
+                    j = (lo_, hi_)
                 r.iv[k] = j
         for k in a.arr:
             if k in b.arr and len(a.arr[k]) == len(b.arr[k]):
